@@ -517,6 +517,10 @@ class Mesh2DTopology:
             # to a floating point data type, and replace masked values with numpy.nan.
             # Here we convert a floating point array to a masked integer array.
             masked_values = numpy.ma.masked_invalid(values)
+            if '_FillValue' in data_array.attrs:
+                # A float variable that xarray has not applied the fill value to,
+                # opened with mask_and_scale=False
+                masked_values = numpy.ma.masked_equal(masked_values, data_array.attrs['_FillValue'])
             # numpy will emit a warning when converting an array with numpy.nan to int,
             # even if the nans are masked out.
             masked_values.data[masked_values.mask] = self.sensible_fill_value
